@@ -9,7 +9,7 @@ import os
 
 from ..common import SPEC, Scratch, rng, MachineryError
 from ..report import Report
-from .. import tlc, bf3lib as L
+from .. import tlc, bf3lib as L, errpaths as E
 from . import bf3common as C
 
 
@@ -113,6 +113,9 @@ def run(tier):
             text = L.rec_write(rec, f, key, False, wd)
             L.rec_read(rec, text, key, True, False, wd, auth=rec.last_written)
         skipped = gen_events(rec, r, 120 if tier == "quick" else 3000, wd, rep)
+        # error-path histories (a refused write, then the repaired object and an unrelated one) and large payloads
+        E.bf3_failed_then_good(rec, r, wd, 6 if tier == "quick" else 60, enc=True)
+        E.bf3_large(rec, r, wd, (300, 4128) if tier == "quick" else (257, 300, 1000, 4096, 4128, 8200))
         # binding self-test: one corrupted recorded field must be rejected
         okreads = [e for e in rec.events if e["op"] == "bf3.read" and e["kind"] == "ok"]
         can = dict(okreads[-1] if okreads else rec.events[-1])
